@@ -981,10 +981,15 @@ fn special_arm(src: &Src, fname: &str, gname: &str) -> R<String> {
             if c != "to.exists()" { return Err(format!("{}: Special arm: condition {}", fname, c)); }
             if i.else_branch.is_some() { return Err("Special arm: unexpected else".into()); }
             let inner: Vec<String> = i.then_branch.stmts.iter().map(|s| quote::ToTokens::to_token_stream(s).to_string().replace(' ', "")).collect();
-            if inner.len() != 2 || !inner[0].starts_with("ifconfig.no_clobber{returnErr(") || !inner[1].starts_with("remove_file(&to)?") {
+            let nc_ok = !inner.is_empty() && inner[0].starts_with("ifconfig.no_clobber{returnErr(");
+            if nc_ok && inner.len() == 3 && inner[1].starts_with("ifis_same_file(&from,&to)?{returnErr(") && inner[2].starts_with("remove_file(&to)?") {
+                // the node is never replaced by itself: the same-file refusal sits between the no-clobber refusal and the unlink
+                table = "(if target_exists then (if no_clobber then 0 else (if same_file then 0 else 2)) else 1)".to_string();
+            } else if nc_ok && inner.len() == 2 && inner[1].starts_with("remove_file(&to)?") {
+                table = "(if target_exists then (if no_clobber then 0 else 2) else 1)".to_string();
+            } else {
                 return Err(format!("{}: Special arm: unexpected body of the exists branch: {:?}", fname, inner));
             }
-            table = "(if target_exists then (if no_clobber then 0 else 2) else 1)".to_string();
             stage = 1;
         } else if stage == 1 {
             if !t.starts_with("copy_node(&from,&to)?") { return Err(format!("{}: Special arm: expected copy_node, found {}", fname, t)); }
@@ -992,7 +997,7 @@ fn special_arm(src: &Src, fname: &str, gname: &str) -> R<String> {
         } else { return Err(format!("{}: Special arm: trailing statement {}", fname, t)); }
     }
     if stage != 2 { return Err(format!("{}: Special arm incomplete", fname)); }
-    Ok(format!("(* {}:{}  {}: Operation::Special — 0 error, 1 mknod, 2 unlink then mknod *)\nDefinition {} (no_clobber target_exists : bool) : N :=\n  {}.\n",
+    Ok(format!("(* {}:{}  {}: Operation::Special — 0 error, 1 mknod, 2 unlink then mknod *)\nDefinition {} (no_clobber target_exists same_file : bool) : N :=\n  {}.\n",
                src.path, arm.span().start().line, fname, gname, table))
 }
 
@@ -1002,7 +1007,7 @@ fn special_arm(src: &Src, fname: &str, gname: &str) -> R<String> {
 fn call_order(src: &Src, fname: &str, gname: &str, known: &[(&str, u64)], what: &str) -> R<String> {
     let (_, block) = find_fn(src, fname)?;
     struct V<'a> { known: &'a [(&'a str, u64)], out: Vec<u64> }
-    const IGNORE: &[&str] = &["Ok", "Err", "Some", "into", "clone", "to_string", "len", "as_ref", "as_raw_fd", "unwrap", "is_err", "ok_or",
+    const IGNORE: &[&str] = &["Ok", "Err", "Some", "is_ok", "into", "clone", "to_string", "len", "as_ref", "as_raw_fd", "unwrap", "is_err", "ok_or",
                              "CopyError", "InvalidDestination", "ReflinkFailed", "DestinationExists", "map_err", "to_path_buf", "new"];
     impl<'a> V<'a> {
         fn note(&mut self, name: &str) {
@@ -1859,9 +1864,9 @@ fn main() {
             emit("tree_walker", tree_walker_shape(&src), &mut out);
             emit("try_reflink", try_reflink(&src), &mut out);
             emit("CopyHandle::new", call_order(&src, "new", "x_copy_new_steps",
-                &[("File::open", 20), ("metadata", 21), ("try_exists", 22), ("is_same_file", 23), ("needs_backup", 24), ("get_backup_path", 25),
+                &[("File::open", 20), ("metadata", 21), ("try_exists", 22), ("is_same_file", 23), ("symlink_metadata", 26), ("needs_backup", 24), ("get_backup_path", 25),
                   ("fs::rename", 1), ("File::create", 2), ("allocate_file", 3)],
-                "the steps of CopyHandle::new in evaluation order (20 open source, 21 fstat, 22 probe destination, 23 same-file check, 24/25 backup decision and name, 1 rename, 2 create+truncate, 3 size; 99 = any other call, 98 = return)"), &mut out);
+                "the steps of CopyHandle::new in evaluation order (20 open source, 21 fstat, 22 probe destination, 23 same-file check, 26 lstat of a destination the probe called absent (a dangling link is refused), 24/25 backup decision and name, 1 rename, 2 create+truncate, 3 size; 99 = any other call, 98 = return)"), &mut out);
             emit("copy_file", call_order(&src, "copy_file", "x_copy_file_steps",
                 &[("try_reflink", 4), ("probably_sparse", 30), ("copy_sparse", 31), ("copy_bytes", 32)],
                 "the steps of CopyHandle::copy_file (4 clone attempt, 30 sparseness test, 31 sparse walk, 32 plain loop)"), &mut out);
